@@ -561,6 +561,11 @@ impl AcceptFuture<'_> {
                     return Poll::Ready(());
                 }
                 self.manager.set_waker(self.index, Waker::clone(cx.waker()));
+                // `shutdown()` may have set the flag and notified the wakers between the check above and
+                // the registration of our waker; nobody would wake us then.
+                if self.manager.shutdown.load(Ordering::Acquire) {
+                    return Poll::Ready(());
+                }
                 Poll::Pending
             });
             match self.listener {
